@@ -427,7 +427,7 @@ def gen_cfg_reg_value(rng, r):
 def run(ck):
     from spsdk.utils.registers import Registers  # noqa: F401
 
-    ck.lean_obligations()
+    ck.lean_obligations(generated=["RegArith"])   # integer arithmetic of registers.py, re-translated from the AST on every run
     drv = ck.driver()
     rng = ck.rng
     ck.assume("config processors other than SHIFT_RIGHT, YAML comment rendering and HTML export are not modelled",
